@@ -9,7 +9,9 @@ package bloomsearch
 import (
 	"context"
 	"io"
+	"reflect"
 	"sort"
+	"sync/atomic"
 
 	"github.com/tidwall/gjson"
 )
@@ -233,5 +235,77 @@ func VerifConstants() map[string]int {
 		"queryFileJobBuffer":     queryFileJobBuffer,
 		"blockFilterChunkTarget": blockFilterChunkTarget,
 		"LengthPrefixSize":       LengthPrefixSize,
+	}
+}
+
+// ---------------------------------------------------------------- event hooks
+
+// VerifEvent is one engine-internal event reported to the hook set with VerifSetHook.
+// Chans holds the addresses of the done channels involved (0 for a nil channel).
+type VerifEvent struct {
+	Kind  string
+	Chans []uintptr
+	Rows  int
+	Force bool
+	Err   error
+}
+
+var verifHook atomic.Pointer[func(VerifEvent)]
+var verifFSHook atomic.Pointer[func(op, path string)]
+
+// VerifSetHook installs (or with nil removes) the event callback. The callback runs on the
+// engine goroutine that reports the event and must not call back into the engine.
+func VerifSetHook(f func(VerifEvent)) {
+	if f == nil {
+		verifHook.Store(nil)
+		return
+	}
+	verifHook.Store(&f)
+}
+
+// VerifSetFSHook installs the callback invoked before every filesystem mutation of
+// FileSystemDataStore (crash-point enumeration).
+func VerifSetFSHook(f func(op, path string)) {
+	if f == nil {
+		verifFSHook.Store(nil)
+		return
+	}
+	verifFSHook.Store(&f)
+}
+
+// VerifChanID is the identity verifEv reports for a done channel.
+func VerifChanID(ch chan error) uintptr {
+	if ch == nil {
+		return 0
+	}
+	return reflect.ValueOf(ch).Pointer()
+}
+
+func verifEv(kind string, args ...any) {
+	hp := verifHook.Load()
+	if hp == nil {
+		return
+	}
+	ev := VerifEvent{Kind: kind}
+	for _, a := range args {
+		switch v := a.(type) {
+		case *ingestRequest:
+			ev.Chans = append(ev.Chans, VerifChanID(v.doneChan))
+			ev.Rows = len(v.rows)
+			ev.Force = v.forceFlush
+		case []chan error:
+			for _, ch := range v {
+				ev.Chans = append(ev.Chans, VerifChanID(ch))
+			}
+		case error:
+			ev.Err = v
+		}
+	}
+	(*hp)(ev)
+}
+
+func verifFS(op, path string) {
+	if hp := verifFSHook.Load(); hp != nil {
+		(*hp)(op, path)
 	}
 }
